@@ -48,6 +48,8 @@ using namespace ltv;
 //       save (resume_save_progress + resume_save_uncertain_pieces, at any moment while open)
 //     then the torrent is removed ("crash").
 //   post-crash per file:  =  untouched   D  deleted   T<n>  truncated   W  rewritten in place, same size, mtime + 7 s
+//     resave | resave2 (last token): an intermediate lifetime loads the data and saves again before the requested check is
+//       done (resave2: check started), then dies; the final lifetime loads what that save left
 //     lose=i,i | lose=%k (every k-th piece): the bytes of these pieces are overwritten, file sizes and mtimes stay as they were
 //   Lq / Tq instead of L / T: the second lifetime checks the way rtorrent does (quick check first, then stop + full check)
 //   lifetime 2: 10 s later: download_add, open, resume_load_progress of the saved object, hash_check(false).
@@ -159,6 +161,8 @@ static std::string run_case(Session& S, const std::string& line, unsigned serial
   auto lay = split_ws(sec[0]), miss = split_ws(sec[1]), ops = split_ws(sec[2]), pert = split_ws(sec[3]);
   std::vector<uint32_t> lose;
   std::string lose_spec;
+  int resave = 0;      // resave / resave2: an intermediate lifetime that loads and saves again before the check is done (2: check started)
+  if (!pert.empty() && pert.back().rfind("resave", 0) == 0) { resave = pert.back() == "resave2" ? 2 : 1; pert.pop_back(); }
   if (!pert.empty() && pert.back().rfind("lose=", 0) == 0) { lose_spec = pert.back().substr(5); pert.pop_back(); }
   if (lay.size() < 2 || pert.size() != lay.size() - 1 || miss.size() != 1) return "BADCASE";
   TorrentSpec spec;
@@ -333,6 +337,25 @@ static std::string run_case(Session& S, const std::string& line, unsigned serial
     }
   }
 
+  std::string resaved = "-";
+  if (resave) {
+    // an intermediate lifetime: the resume data is loaded, the client saves the session (progress + uncertain pieces on the
+    // SAME object, rtorrent's order) before the requested check has completed, and dies again
+    S.advance_us(10 * 1000000ll);
+    torrent::Download m = S.add_raw("d4:info" + info + "e");
+    m.file_list()->set_root_dir(root);
+    const_cast<torrent::DownloadInfo*>(m.info())->set_load_date((uint32_t)(S.now_us() / 1000000));
+    m.open(0);
+    try { torrent::resume_load_progress(m, resume); } catch (torrent::base_error&) {}
+    if (resave == 2) m.hash_check(false);      // check started, not driven
+    torrent::resume_save_progress(m, resume);
+    torrent::resume_save_uncertain_pieces(m, resume);
+    resaved = resume.has_key_string("uncertain_pieces") ? "kept" : "erased";
+    m.close(0);
+    S.step();
+    torrent::download_remove(m);
+    S.step();
+  }
   S.advance_us(10 * 1000000ll);
   torrent::Download d = S.add_raw("d4:info" + info + "e");
   d.file_list()->set_root_dir(root);
@@ -360,7 +383,8 @@ static std::string run_case(Session& S, const std::string& line, unsigned serial
   S.step();
   std::error_code ec;
   std::filesystem::remove_all(std::filesystem::path(root).parent_path(), ec);
-  return "saved=" + saved + " sbf=" + sbf + " unc=" + unc + " cl=" + cl + " load_ranges=" + ranges + " bits=" + bits + " || ssl=" + ssl +
+  return "saved=" + saved + " sbf=" + sbf + " unc=" + unc + " cl=" + cl + (resave ? " resaved_unc=" + resaved : std::string()) +
+         " load_ranges=" + ranges + " bits=" + bits + " || ssl=" + ssl +
          " sound=" + (sound ? "1" : "0") + " inflight=" + inflight + (err.empty() ? "" : " load_exception=" + err);
 }
 
@@ -369,6 +393,7 @@ static std::string run_case(Session& S, const std::string& line, unsigned serial
 //   resume spec tokens:  top=m|x   files=none|notlist|str|map|empty|<e>,<e>,..  (e: x/xi/xl entry is a string/int/list,
 //                        n map without mtime, s/l/m mtime is a string/list/map, <int> mtime value)
 //                        bf=none|L|M|V<int>|S<hex>   unc=none|V|L|<hex>|-   ts=none|str|L|<int>
+//                        comp=<v>,<v>,.. prio=<v>,.. per-file 'completed' / 'priority' for resume_load_file_priorities (n absent, s string)
 //   bad pieces: their bytes on disk are overwritten (piece does not verify)
 // Output:  out=<Ignored|Loaded|Threw> bits=<after load> ranges=<after load> flags=<create,resize per file>
 //          final=<bits after hash_check(false)>  ||  ssl=<valid on disk by OpenSSL> sound=<0|1> exc=<message>
@@ -483,6 +508,23 @@ static std::string run_load(Session& S, const std::string& line, unsigned serial
         if (b == std::string::npos) break;
         a = b + 1;
       }
+    } else if (key == "comp" || key == "prio") {
+      // per-file 'completed' / 'priority' values for resume_load_file_priorities (n = key absent, s = a string)
+      if (!resume.has_key_list("files")) continue;
+      auto& lst = resume.get_key_list("files");
+      size_t a = 0;
+      auto it = lst.begin();
+      while (a <= v.size() && it != lst.end()) {
+        size_t b = v.find(',', a);
+        std::string x = v.substr(a, b == std::string::npos ? std::string::npos : b - a);
+        if (it->is_map() && x != "n") {
+          if (x == "s") it->insert_key(key == "comp" ? "completed" : "priority", torrent::Object(std::string("3")));
+          else it->insert_key(key == "comp" ? "completed" : "priority", torrent::Object(int64_t(std::stoll(x))));
+        }
+        ++it;
+        if (b == std::string::npos) break;
+        a = b + 1;
+      }
     } else if (key == "bf") {
       if (v == "none") continue;
       if (v == "L") resume.insert_key("bitfield", torrent::Object::create_list());
@@ -502,6 +544,15 @@ static std::string run_load(Session& S, const std::string& line, unsigned serial
   torrent::Download d = S.add_raw("d4:info" + T->info_bytes + "e");
   d.file_list()->set_root_dir(root);
   const_cast<torrent::DownloadInfo*>(d.info())->set_load_date(load_date);
+  // per-file priorities / completed counters are restored before the download is opened (a client's order)
+  std::string fp = "ok";
+  try {
+    torrent::resume_load_file_priorities(d, resume);
+  } catch (torrent::internal_error&) {
+    throw;
+  } catch (torrent::base_error& e) {
+    fp = "exc";
+  }
   d.open(0);
   std::string exc, outcome;
   bool had_bits = !d.file_list()->bitfield()->empty();
@@ -531,7 +582,7 @@ static std::string run_load(Session& S, const std::string& line, unsigned serial
   bool sound = true;
   if (fin != "closed" && fin != "-")
     for (size_t i = 0; i < fin.size(); i++) if (fin[i] == '1' && ssl[i] != '1') sound = false;
-  out += " final=" + fin + " || ssl=" + ssl + " sound=" + (sound ? "1" : "0") + " exc=" + exc;
+  out += " final=" + fin + " || ssl=" + ssl + " sound=" + (sound ? "1" : "0") + " fp=" + fp + " exc=" + exc;
   d.close(0);
   S.step();
   torrent::download_remove(d);
@@ -643,7 +694,31 @@ static int probe_main() {
     }
     prune_after = lo;
   }
-  std::cout << "{\"load_checks_exists\": " << checks_exists << ", \"load_validates_entries\": " << validates
+  // does a save while the download is not hash checked keep the stored uncertain list?
+  int unc_kept = 0;
+  {
+    TorrentSpec spec;
+    spec.name = "u";
+    spec.piece_length = 2048;
+    spec.files = {{"f0", 4096}};
+    auto T = Session::make_metainfo(spec);
+    std::string root = S.scratch() + "/u/t";
+    std::filesystem::create_directories(root);
+    std::ofstream(root + "/f0", std::ios::binary).write(T->content.data(), (std::streamsize)T->content.size());
+    torrent::Download d = S.add_raw("d4:info" + T->info_bytes + "e");
+    d.file_list()->set_root_dir(root);
+    d.open(0);
+    torrent::Object r = torrent::Object::create_map();
+    r.insert_key("uncertain_pieces", torrent::Object(std::string("\0\0\0\1", 4)));
+    r.insert_key("uncertain_pieces.timestamp", torrent::Object(int64_t(5)));
+    torrent::resume_save_uncertain_pieces(d, r);
+    unc_kept = r.has_key_string("uncertain_pieces") ? 1 : 0;
+    d.close(0);
+    S.step();
+    torrent::download_remove(d);
+    S.step();
+  }
+  std::cout << "{\"unc_kept_while_unchecked\": " << unc_kept << ", \"load_checks_exists\": " << checks_exists << ", \"load_validates_entries\": " << validates
             << ", \"unc_skips_out_of_range\": " << skips << ", \"uncertain_window_min\": " << window
             << ", \"completed_keep_min\": " << keep << ", \"completed_prune_after_min\": " << prune_after << "}\n";
   return 0;
